@@ -67,6 +67,20 @@ func (u *Unit) sliceFacts(st *State, v Val) {
 }
 
 func (u *Unit) checkInvariants(st *State, ls *LoopSpec, n int, phase string, bind map[string]Val, node ast.Node) {
+	if phase == "keep" && u.con != nil && u.con.Propagates && len(u.inlineStack) == 0 && !u.inCommute {
+		// an iteration only completes normally when none of the errors it obtained is non-nil
+		var conj []string
+		for _, e := range st.errs {
+			conj = append(conj, eq(e.term, "0"))
+		}
+		if len(conj) > 0 {
+			props := u.con.PropProps
+			if len(props) == 0 {
+				props = u.con.Props
+			}
+			u.oblige(st, fmt.Sprintf("loop#%d#err-propagation", n), "propagate", and(conj...), props, nil, "a loop iteration that obtained a non-nil error does not continue normally", node)
+		}
+	}
 	if ls == nil {
 		return
 	}
